@@ -338,4 +338,39 @@ p("c11-p-always-determinise", "C11", CFGF,
   "            if not other.is_deterministic():\n                other = other.to_deterministic()\n        else:\n            raise NotImplementedError\n        if other.is_empty():",
   "            other = other.to_deterministic()\n        else:\n            raise NotImplementedError\n        if other.is_empty():")
 
+# ----------------------------------------------------------------------------- C13
+b("c13-final-state-bare-name", "C13", PDAF,
+  "        new_start = get_next_free(\"#STARTTOFINAL#\", State, self._states)", "        new_start = State(\"#STARTTOFINAL#\")",
+  "unproven-name")
+b("c13-wrong-collection", "C13", PDAF,
+  "        new_stack_symbol = get_next_free(\"#BOTTOMTOFINAL#\",\n                                         StackSymbol,\n                                         self._stack_alphabet)",
+  "        new_stack_symbol = get_next_free(\"#BOTTOMTOFINAL#\",\n                                         StackSymbol,\n                                         self._states)",
+  "fresh-wrong-collection")
+b("c13-empty-stack-old-alphabet", "C13", PDAF,
+  "        for state in self._final_states:\n            for stack_symbol in new_stack_alphabet:",
+  "        for state in self._final_states:\n            for stack_symbol in self._stack_alphabet:",
+  "final-states-pop-every-symbol-incl-marker")
+b("c13-empty-stack-end-old-alphabet", "C13", PDAF,
+  "        for stack_symbol in new_stack_alphabet:\n            new_tf.add_transition(new_end, Epsilon(), stack_symbol,",
+  "        for stack_symbol in self._stack_alphabet:\n            new_tf.add_transition(new_end, Epsilon(), stack_symbol,",
+  "end-state-pops-every-symbol-incl-marker")
+b("c13-final-state-only-finals", "C13", PDAF,
+  "        for state in self._states:\n            new_tf.add_transition(state, Epsilon(), new_stack_symbol,\n                                  new_end, [])",
+  "        for state in self._final_states:\n            new_tf.add_transition(state, Epsilon(), new_stack_symbol,\n                                  new_end, [])",
+  "pop-to-end-for-every-state")
+b("c13-tocfg-merged-phases", "C13", PDAF,
+  "                    state)\n        for transition in self._transition_function:\n            for state in states:\n                self._process_transition_and_state_to_cfg(productions,",
+  "                    state)\n                self._process_transition_and_state_to_cfg(productions,",
+  "set_valid-before-is_valid_and_get")
+b("c13-topda-no-terminal-moves", "C13", CFGF,
+  "        for terminal in self._terminals:\n            new_pda.add_transition(state,\n                                   pda_object_creator.get_symbol_from(\n                                       terminal),\n                                   pda_object_creator.get_stack_symbol_from(\n                                       terminal),\n                                   state, [])\n",
+  "", "consuming-move-per-terminal")
+b("c13-final-state-shares-tf", "C13", PDAF,
+  "        new_tf = self._transition_function.copy()\n        new_tf.add_transition(new_start, Epsilon(), new_stack_symbol,\n                              self._start_state, [self._start_stack_symbol,\n                                                  new_stack_symbol])\n        for state in self._states:",
+  "        new_tf = self._transition_function\n        new_tf.add_transition(new_start, Epsilon(), new_stack_symbol,\n                              self._start_state, [self._start_stack_symbol,\n                                                  new_stack_symbol])\n        for state in self._states:",
+  "wrappers-on-copy")
+p("c13-p-rename-marker", "C13", PDAF,
+  "        new_tf = self._transition_function.copy()\n        new_tf.add_transition(new_start, Epsilon(), new_stack_symbol,\n                              self._start_state, [self._start_stack_symbol,\n                                                  new_stack_symbol])\n        for state in self._states:",
+  "        new_tf = self._transition_function.copy()\n        pushed = [self._start_stack_symbol, new_stack_symbol]\n        new_tf.add_transition(new_start, Epsilon(), new_stack_symbol,\n                              self._start_state, pushed)\n        for state in self._states:")
+
 VARIANTS = V
